@@ -320,4 +320,14 @@ def badClassIds : List Nat := [17, 18, 31, 32, 33, 48, 51, 56]
 def goodClassIds : List Nat := [0, 1, 2, 3, 4, 5, 6, 7, 8, 9, 10, 11, 12, 13, 14, 15, 16, 19, 20, 21, 22, 23, 24, 25, 26, 27, 28, 29, 30, 34, 35, 36, 37, 38, 39, 40, 41, 42, 43, 44, 45, 46, 47, 49, 50, 52, 53, 54, 55]
 def badClassNames : List String := ["blobDownload.Total", "blobDownload.done", "blobUpload.Total", "blobUpload.done", "blobUpload.err", "runnerRef.expiresAt", "runnerRef.loading", "runnerRef.sessionDuration"]
 
+/-- lock order: mutex classes (g: = mutex of a singleton object, s: = mutex of the object itself) -/
+def lockRefNames : List String := ["g:Scheduler.loadedMu", "s:blobDownloadPart.lastUpdatedMu", "s:runnerRef.refMu"]
+/-- (held, acquired) for every site that takes a mutex while holding another one; acquisitions on or under a fresh
+    (unpublished) object's mutex are listed separately: they cannot be contended -/
+def lockOrderEdges : List (Nat × Nat) := [(0, 2)]
+def lockOrderFreshEdges : List (Nat × Nat) := [(2, 0)]
+/-- the translator's topological rank of each mutex class (all 0 when it found a cycle) -/
+def lockRank : List Nat := [1, 1, 2]
+def lockOrderSites : List String := ["g:Scheduler.loadedMu -> s:runnerRef.refMu at Scheduler.expireRunner:840 fresh=false", "g:Scheduler.loadedMu -> s:runnerRef.refMu at Scheduler.processCompleted:369 fresh=false", "g:Scheduler.loadedMu -> s:runnerRef.refMu at Scheduler.updateFreeSpace:502 fresh=false", "s:runnerRef.refMu -> g:Scheduler.loadedMu at Scheduler.load:468 fresh=true"]
+
 end OllamaVerif.Generated.C15
